@@ -269,7 +269,7 @@ func (i *Iterator[T]) Filter(check func(T) bool) *Iterator[T] {
 				return item, nil
 			}
 		}
-	}).Iterator()
+	}).IteratorWithHook(func(si *Iterator[T]) { si.AddError(i.Close()) })
 }
 
 // Any, as a special case of Transform converts an iterator of any
@@ -438,11 +438,25 @@ func (i *Iterator[T]) Process(fn Processor[T]) Worker {
 // sequentially, and without starting any go routines. Otherwise
 // similar to MergeIterators (which processes each iterator in parallel).
 func (i *Iterator[T]) Join(iters ...*Iterator[T]) *Iterator[T] {
-	proc := i.Producer()
+	proc := Producer[T](i.readOrFail)
 	for idx := range iters {
-		proc = proc.Join(iters[idx].ReadOne)
+		proc = proc.Join(iters[idx].readOrFail)
 	}
 	return proc.Iterator()
+}
+
+// readOrFail is ReadOne for consumers that continue with another
+// iterator when this one is exhausted: ReadOne hands the error of a
+// failed iteration to the iterator's error collector and reports
+// io.EOF, which is indistinguishable from a normal end; readOrFail
+// returns the collected error instead, so that the consumer stops.
+func (i *Iterator[T]) readOrFail(ctx context.Context) (out T, err error) {
+	if out, err = i.ReadOne(ctx); errors.Is(err, io.EOF) {
+		if cerr := i.Close(); cerr != nil {
+			err = cerr
+		}
+	}
+	return out, err
 }
 
 // Slice converts an iterator to the slice of it's values, and
